@@ -1,4 +1,5 @@
 import PlzVerif.Lemmas.Walk
+import PlzVerif.Lemmas.WalkDecl
 import PlzVerif.Generated.C22
 /-!
 C22  `//dir/...` expands to exactly the packages under the directory.
@@ -14,7 +15,8 @@ components, so blacklisting `out` does not hide `output/`."
 
 The property as stated is FALSE for the pinned code (two independent root causes, both with a machine-checked
 witness below); what does hold: soundness without any condition, exactness on benign trees, exactness of the
-repaired callback.
+repaired callback; and the recursive specification is characterised declaratively
+(`C22_spec_declarative`).
 -/
 namespace PlzVerif.Props.C22
 open PlzVerif.Walk PlzVerif.Generated
@@ -199,5 +201,22 @@ example : (walk (cbFixed cfgW2) true (nameOf []) treeW2.sort).1 = [['q', '/', 'B
     strings coincides with equality of component sequences. -/
 theorem C22_component_test (q : List Name) (d : Name) (g : goodPath q = true) :
     blComp (nameOf q) (lastOr q) d = (d == lastOr q || compMatch d q) := blComp_eq q d g
+
+/-! ### the specification, declaratively -/
+
+/-- **The recursive specification says what the property says.**  `x` is listed by `spec` for the directory `p` with
+    listing `cs` iff it is `p/rel/b` where `p/rel` is a directory reached through directories only, `b` is a
+    non-directory entry of it named like a BUILD file, and none of the directories `p`, `p/rel₁`, …, `p/rel` is
+    `plz-out`, hidden, an experimental directory or blacklisted by whole path components (`specExcluded`). -/
+theorem C22_spec_declarative (cfg : Config) (p : List Name) (cs : Forest) (hn : Forest.nodup cs = true) (x : List Name) :
+    x ∈ spec plzOut cfg p (.dir cs) ↔
+      ∃ rel ds b k, x = p ++ rel ++ [b] ∧ dirAt cs rel = some ds ∧ Forest.get b ds = some (.leaf k) ∧
+        cfg.buildNames.contains b = true ∧ ∀ j, j ≤ rel.length → specExcluded plzOut cfg (p ++ rel.take j) = false := by
+  rw [mem_spec_iff plzOut cfg x cs p hn]
+  constructor
+  · rintro ⟨rel, ds, b, k, h1, h2, h3, h4, h5⟩
+    exact ⟨rel, ds, b, k, h1, h2, h3, h4, fun j hj => h5 j (Nat.zero_le _) hj⟩
+  · rintro ⟨rel, ds, b, k, h1, h2, h3, h4, h5⟩
+    exact ⟨rel, ds, b, k, h1, h2, h3, h4, fun j _ hj => h5 j hj⟩
 
 end PlzVerif.Props.C22
